@@ -38,11 +38,11 @@ vlib.known_findings = _known_with_proposed
 
 class P(vlib.Prop):
     pid = "C20"
-    coq_dirs = ["Common", "C20"]
+    coq_dirs = ["Common", "C20", "Generated"]
     coq_targets = ["C20/Properties.vo", "C20/Witness.vo", "C20/Harness.vo"]
     properties_module = "C20.Properties"
     properties_file = "C20/Properties.v"
-    instance_obligations = []
+    instance_obligations = ["state_codes_are_the_go_constants", "state_names_are_the_go_strings", "observed_state_is_the_stored_word", "collector_api_is_the_modelled_one"]
     harness_module = "C20.Harness"
     case_type = "(list ((nat * nat) * ((nat * nat) * list nat)) * (bool * (nat * nat))) * (list (nat * nat) * (list (nat * bool) * (list (nat * (nat * nat)) * nat)))"
     shard = 40
@@ -74,6 +74,7 @@ class P(vlib.Prop):
         "hand-written model coq/C20/Model.v of otelcol/collector.go (Run, setupConfigurationComponents, reloadConfiguration, "
         "shutdown, Shutdown), configprovider.go/confmap resolver (Get/closeIfNeeded/Watch/Shutdown), service.New/Start/Shutdown "
         "order, graph.StartAll/ShutdownAll, Host.NotifyComponentStatusChange; tied by the correspondence run",
+        "translator T1 (tools/go2coq): State constants, State.String, Collector.GetState, method set of *Collector read from the current source",
         "Go harness harness/C20/run_test.go (gates, branch observation, deadlock diagnosis by reading the reporter mutex through "
         "reflection) + go test -overlay -modfile; Go toolchain",
     ]
@@ -87,3 +88,8 @@ class P(vlib.Prop):
         "service.Start (bring-up is one section) are not modelled",
         "real OS signal delivery (signal.Notify) is replaced by sends into signalsChannel",
     ]
+
+    def translate(self, ctx):
+        # translator T1: State constants, State.String, Collector.GetState, method set of *Collector, re-read
+        # from the current source on every run; coq/C20/Tie.v proves the model's definitions equal to them
+        vlib.go2coq(ctx, "otelcol", os.path.join(vlib.VERIF, "props", "C20", "t1_spec.json"), "C20State")
